@@ -47,7 +47,7 @@ func (c c05case) String() string {
 }
 
 var c05strategies = []string{"off-polynomial-share-in", "flip-share-out", "alter-commitment", "alter-reveal", "copy-honest-key", "malformed-share-truncated", "malformed-share-fewer-elements",
-	"malformed-share-garbage", "duplicate-share-changed", "duplicate-commitment-changed", "duplicate-reveal-changed", "withhold-share", "withhold-commitment", "withhold-reveal", "reveal-before-commitment", "reveal-mismatching-valid-key", "truncated-commitment-then-mismatching-valid-key", "second-commitment-for-another-key", "commit-to-garbage-and-reveal-it", "none"}
+	"malformed-share-garbage", "duplicate-share-changed", "duplicate-commitment-changed", "duplicate-reveal-changed", "withhold-share", "withhold-commitment", "withhold-reveal", "reveal-before-commitment", "reveal-mismatching-valid-key", "truncated-commitment-then-mismatching-valid-key", "second-commitment-for-another-key", "commit-to-garbage-and-reveal-it", "off-polynomial-key-committed-and-revealed-then-the-genuine-key", "none"}
 
 type c05result struct {
 	d         *drun
@@ -55,6 +55,9 @@ type c05result struct {
 	effected  bool
 	selfOK    bool
 	mustAbort map[uint16]bool // honest parties that were shown a public key that does not match the commitment they hold
+	// mustDetect: honest parties that hold a commitment to, and the matching reveal of, a key that is off the common polynomial
+	// (t < n): their cross-check must refuse the key generation
+	mustDetect map[uint16]bool
 }
 
 func runC05(cs c05case, rng *mrand.Rand) c05result {
@@ -63,7 +66,7 @@ func runC05(cs c05case, rng *mrand.Rand) c05result {
 		ids = append(ids, uint16(i))
 	}
 	d := newDrun(cs.Sch, ids, cs.T, rng)
-	res := c05result{d: d, selfOK: true, mustAbort: map[uint16]bool{}}
+	res := c05result{d: d, selfOK: true, mustAbort: map[uint16]bool{}, mustDetect: map[uint16]bool{}}
 	isVictim := map[uint16]bool{}
 	for _, v := range cs.Victims {
 		isVictim[v] = true
@@ -281,6 +284,33 @@ func runC05(cs c05case, rng *mrand.Rand) c05result {
 				res.effected = true
 				return nil
 			}
+		case "off-polynomial-key-committed-and-revealed-then-the-genuine-key":
+			// the participant holds back its commitment; once its genuine key G is known it commits to B = G + generator (a valid key
+			// off the polynomial) and sends: reveal(B), reveal(G), and only then the commitment to B. The first reveal matches the
+			// commitment, so B is the key of this participant; the second reveal is a duplicate and means nothing.
+			if isCommit && hit {
+				if genuineCommit == nil {
+					genuineCommit = append([]byte{}, m.data...)
+				}
+				return nil
+			}
+			if isReveal && hit && genuineCommit != nil {
+				if sum := sha256.Sum256(m.data[1:]); len(genuineCommit) != 33 || !sameBytes(sum[:], genuineCommit[1:]) {
+					res.selfOK = false
+					return []dmsg{m}
+				}
+				b, ok := cs.Sch.tweakKey(m.data)
+				if !ok {
+					res.selfOK = false
+					return []dmsg{m}
+				}
+				sum := sha256.Sum256(b[1:])
+				res.effected = true
+				if cs.T < cs.N {
+					res.mustDetect[m.to] = true
+				}
+				return []dmsg{{from: m.from, to: m.to, data: b, bcast: m.bcast}, m, {from: m.from, to: m.to, data: append([]byte{genuineCommit[0]}, sum[:]...), bcast: true}}
+			}
 		case "reveal-before-commitment":
 			if isCommit && hit && !revealSent {
 				heldCommit = append(heldCommit, m)
@@ -332,6 +362,11 @@ func c05oracle(cs c05case, r c05result, rng *mrand.Rand) (string, string) {
 			return "accepted-key-that-mismatches-its-commitment", fmt.Sprintf("honest party %d completed although the public key party %d revealed to it does not match the commitment party %d had sent", id, cs.Byz, cs.Byz)
 		}
 	}
+	for id := range r.mustDetect {
+		if d.errs[id] == nil {
+			return "off-polynomial-key-accepted", fmt.Sprintf("honest party %d completed although party %d committed to and revealed a key that is off the common polynomial (followed by a second, meaningless reveal of its genuine key); t < n", id, cs.Byz)
+		}
+	}
 	if who, round, off, bad := d.keyInEarlierMessage(honest); bad {
 		return "key-inside-earlier-message", fmt.Sprintf("honest party %d: bytes %d..%d of the public key it later revealed are contained in a round-%d message it transmitted before it held the commitments of all other participants", who, off, off+32, round)
 	}
@@ -373,7 +408,7 @@ func c05oracle(cs c05case, r c05result, rng *mrand.Rand) (string, string) {
 }
 
 func unitC05(e common.Env, p *common.Part) {
-	p.Rule = "directly wired BLS and PS key generations in which one participant is a real backend behind a wrapper that perturbs what goes in and out: off-polynomial share it receives (consistent commit/reveal), flipped outgoing share (PS: x and each y_j), altered commitment / reveal, copy of an honest party's commitment and key, malformed share (truncated, fewer elements, garbage), a commitment cut to its tag byte plus 0 / 1 / 16 / 31 digest bytes followed by the reveal of another valid key, a commitment to garbage that is then revealed (garbage of arbitrary sizes and of exactly a group element's size: all ones, all zeros, a pattern, a genuine element with one byte changed), duplicates with a changed second copy (share, commitment, reveal), withheld share / commitment / reveal, reveal delivered before the commitment; x every single victim and all honest parties as victims x (n,t) incl. t=n x PRNG delivery order; context cancelled at quiescence (all remaining KeyGens parked on their condition variable, nothing queued); oracle: honest completers report identical public material, >= t honest completers sign jointly under the reported key, no honest reveal before all commitments were received (by message kind, and by content: no 32-byte window of the key a party finally reveals occurs in anything it transmitted earlier), no panic, no hang; distinct key = (scheme, n, t, Byzantine party, strategy, victims, scalar); non-trivial when the deviation actually reached a victim"
+	p.Rule = "directly wired BLS and PS key generations in which one participant is a real backend behind a wrapper that perturbs what goes in and out: off-polynomial share it receives (consistent commit/reveal), flipped outgoing share (PS: x and each y_j), altered commitment / reveal, copy of an honest party's commitment and key, malformed share (truncated, fewer elements, garbage), a commitment cut to its tag byte plus 0 / 1 / 16 / 31 digest bytes followed by the reveal of another valid key, a held-back commitment to a valid key off the polynomial sent after the reveal of that key and a second reveal of the genuine key, a commitment to garbage that is then revealed (garbage of arbitrary sizes and of exactly a group element's size: all ones, all zeros, a pattern, a genuine element with one byte changed), duplicates with a changed second copy (share, commitment, reveal), withheld share / commitment / reveal, reveal delivered before the commitment; x every single victim and all honest parties as victims x (n,t) incl. t=n x PRNG delivery order; context cancelled at quiescence (all remaining KeyGens parked on their condition variable, nothing queued); oracle: honest completers report identical public material, >= t honest completers sign jointly under the reported key, no honest reveal before all commitments were received (by message kind, and by content: no 32-byte window of the key a party finally reveals occurs in anything it transmitted earlier), no panic, no hang; distinct key = (scheme, n, t, Byzantine party, strategy, victims, scalar); non-trivial when the deviation actually reached a victim"
 	type nt struct{ n, t int }
 	nts := []nt{{3, 2}, {3, 3}, {4, 2}, {4, 3}, {4, 4}}
 	if e.Thorough() {
@@ -421,7 +456,7 @@ func unitC05(e common.Env, p *common.Part) {
 					}
 					for _, w := range whichs {
 						vsets := [][]uint16{honest, {honest[0]}, {honest[len(honest)-1]}}
-						if st == "none" || st == "off-polynomial-share-in" || st == "copy-honest-key" || st == "commit-to-garbage-and-reveal-it" {
+						if st == "none" || st == "off-polynomial-share-in" || st == "copy-honest-key" || st == "commit-to-garbage-and-reveal-it" || st == "off-polynomial-key-committed-and-revealed-then-the-genuine-key" {
 							vsets = vsets[:1]
 						}
 						for _, vs := range vsets {
